@@ -16,7 +16,8 @@ RULE = ("per proof-producing backend configuration (snarkjs; zkinterface with bn
         "evaluated in F_p; deep snapshots of every operand before/after every operation are equal; get_modulus() equals "
         "the scalar-field order recomputed from the curve definition and passes Miller-Rabin; fieldinverse(x)*x == 1 "
         "(mod p) for x != 0 (mod p) incl. negative and unreduced x, and raises for x == 0 (mod p). Non-trivial = tree "
-        "depth >= 2 with a repeated variable and a scalar outside [0,p); distinct by case digest. libsnark's native "
+        "depth >= 2 with a repeated variable and a scalar outside [0,p), or a long combination (sums of 12-60 terms over up to 48 "
+        "variables combined so that some wires cancel exactly and others recur); distinct by case digest. libsnark's native "
         "class is not available offline and is NOT covered.")
 
 CONFIGS = ["snarkjs", "zkinterface", "zkifbellman", "zkifbulletproofs", "qaptools"]
@@ -178,9 +179,34 @@ def algebra_shard(name, seed, n_examples):
                 if msg:
                     raise core.Violation(case, msg, "inverse")
                 return
+            wide = draw(st.integers(0, 4)) == 0
             tr = draw(backends.trace_strategy(st, p, max_vars=4, max_cons=0))
             vars_ = [(c[0], c[1]) for c in tr]
+            if wide:
+                vars_ += [(draw(st.sampled_from(["priv", "pub"])), draw(st.integers(-3, 9))) for _ in range(draw(st.integers(8, 44)))]
             nv = len(vars_)
+
+            def fold(terms):
+                t = ["mul", ["var", terms[0][0]], terms[0][1]]
+                for v_, c_ in terms[1:]:
+                    t = ["add", t, ["mul", ["var", v_], c_]]
+                return t
+
+            def wide_tree():
+                # long combinations (bit decompositions, inner products: 20-60 terms) combined so that some wires cancel
+                # exactly and others occur again afterwards - merging / normalising code paths only long operands reach
+                coef = st.one_of(st.integers(-3, 3), st.sampled_from([1, 2, 4, 8, p - 1, p - 2, 1 << 20]))
+                n1 = draw(st.integers(12, 50))
+                a = [(draw(st.integers(0, nv - 1)), draw(coef)) for _ in range(n1)]
+                b = []
+                for v_, c_ in draw(st.permutations(a))[:draw(st.integers(1, len(a)))]:
+                    k_ = draw(st.integers(0, 3))
+                    b.append((v_, -c_ if k_ == 0 else p - c_ if k_ == 1 else c_ if k_ == 2 else draw(coef)))
+                b += [(draw(st.integers(0, nv - 1)), draw(coef)) for _ in range(draw(st.integers(0, 20)))]
+                t = [draw(st.sampled_from(["add", "sub"])), fold(a), fold(b)]
+                if draw(st.booleans()):
+                    t = [draw(st.sampled_from(["add", "sub"])), fold(draw(st.permutations(a))[:draw(st.integers(1, len(a)))]), t]
+                return t
 
             def tree(dep):
                 k = draw(st.integers(0, 8 if dep < 4 else 2))
@@ -194,12 +220,12 @@ def algebra_shard(name, seed, n_examples):
                     return ["neg", tree(dep + 1)]
                 return ["mul", tree(dep + 1), draw(st.one_of(st.integers(-3, 3), st.integers(0, p - 1),
                                                              st.sampled_from([0, -1, p, p + 1, -p, 2 * p + 1, 1 << 256, (1 << 300) + 1, -(1 << 257)])))]
-            t = tree(0)
+            t = wide_tree() if wide else tree(0)
             case = {"config": name, "part": "algebra", "vars": vars_, "tree": t}
             vs = vars_in(t, [])
             nt = depth(t) >= 2 and len(vs) != len(set(vs)) and any(not 0 <= s < p for s in scalars_in(t, []))
             msg = judge(cx, case)
-            stats.case(case if nt else None, nt, ("algebra:" + name,))
+            stats.case(case if nt or wide else None, nt or wide, ("algebra:" + name,) + (("long-combination",) if wide else ()))
             if msg:
                 raise core.Violation(case, msg, "algebra")
         v = core.drive(test, seed, n_examples)
